@@ -68,6 +68,10 @@ def run(tier, rep):
             tid, ev, res = tr.add(data, script, calls, 0, rnd.choice([1, 7, 512, 4096]), withfail=withfail, nrecv=len(script), ncalls=len(calls))
             g.append(tid)
         groups.append(g)
+    # large but legal: a single read served by more than a thousand receives
+    data = bytes(rnd.randrange(256) for _ in range(2600))
+    tr.add(data, [1] * 2600, [("read", 1200), ("read", 1029), ("read", 300)], 0, 1, withfail=False, nrecv=2600, ncalls=3)
+    tr.add(data, [2] * 1300, [("read", 2500)], 0, 4096, withfail=False, nrecv=1300, ncalls=1)
     verdicts = tr.judge()
     for tid, v in verdicts.items():
         m = tr.meta[tid]
@@ -94,6 +98,18 @@ def run(tier, rep):
         rep.case(digest([data.hex(), str(seg), "reader"]))
         if got_s != got_f:
             rep.reject("SocketEqualsFile", {"engine": "socket+framer"}, {"stream_hex": data.hex(), "recv_script": seg, "file_frames": len(got_f), "socket_frames": len(got_s)})
+    bigf = b"".join(__import__("harness.decode_rec", fromlist=["x"]).frame_of(bytes([0x7D, 0x00]) + bytes(rnd.randrange(256) for _ in range(n - 2))) for n in (30, 1023, 40, 1010, 12))
+    sock = sockdouble.ScriptedSocket(bigf, [1] * len(bigf))
+    try:
+        got_s = [bytes(r) for r, _ in RTCMReader(sock, bufsize=1, quitonerror=2)]
+    except BaseException as err:  # pylint: disable=broad-except
+        got_s = [type(err).__name__]
+    finally:
+        sock.close()
+    got_f = [bytes(r) for r, _ in RTCMReader(io.BytesIO(bigf), quitonerror=2)]
+    rep.case(digest([bigf.hex(), "bytewise"]))
+    if got_s != got_f:
+        rep.reject("SocketEqualsFile", {"engine": "socket+framer", "segmentation": "bytewise"}, {"stream_len": len(bigf), "file_frames": len(got_f), "socket_result": [x if isinstance(x, str) else len(x) for x in got_s]})
     m = tr.meta[1]
     rep.sample({"stream_len": len(m["data"]), "recv_script": m["script"][:12], "calls": [list(c) for c in m["calls"][:8]], "bufsize": m["bufsize"],
                 "results": [r.hex()[:20] for r in tr.results[1][:8]], "verdict": verdicts[1][1]})
